@@ -61,6 +61,12 @@ func (rm *ResponseManager) processRequests(p peer.ID, requests []gsmsg.GraphSync
 	defer messageSpan.End()
 
 	for _, request := range requests {
+		// The response table is keyed by request ID alone: a message from one peer must never act on
+		// a response that is being served to another peer, even if it carries the same request ID.
+		if response, ok := rm.inProgressResponses[request.ID()]; ok && response.peer != p {
+			log.Warnf("ignoring %s request from peer %s: request ID %s is in use by a response to another peer", request.Type(), p, request.ID().String())
+			continue
+		}
 		switch request.Type() {
 		case graphsync.RequestTypeCancel:
 			_ = rm.abortRequest(ctx, request.ID(), ipldutil.ContextCancelError{})
